@@ -50,7 +50,14 @@ RULE = ('rotation cases = (ns, we, dt) pairs: gen.record classes, amplitudes 1e-
         'lists, tuples, non-contiguous row/column views, Fortran order, read-only; twin cluster from the same caller object; '
         'a second cluster of the same shape processed afterwards with the first re-checked; every keyword of time_match / '
         'same_start incl. defaults and boundary windows (start=0, start=end, end=T). distinct = digest of all inputs and '
-        'options; non-trivial = components not both constant / at least one non-master signal with non-zero lag or offset.')
+        'options; non-trivial = components not both constant / at least one non-master signal with non-zero lag or offset. '
+        'Audit round 2: scan offsets also 1, 57.2957.. (= 1 rad), 540, -725, pi, random in +-3400; points in {1, 2, 3, 5, 7, 31, '
+        '32, 33, 63, 64, 65, 100, 127, 128, 129, 256}; the triple (offset kind 13, measure 16, points 15) walks the full '
+        'product (pairwise coprime moduli); record shapes ramp+noise, pure ramp, monotone, one-sided, tail-heavy, one sample '
+        '1e3..1e12 x the rest, Nyquist + noise, single changed sample (rotation components and cluster bases); awkward time '
+        'steps (gen.awkward_dt) with windows at whole samples; clusters of 1, 5, 6, 7, 8, 12 and 16 signals with the master '
+        'mostly not at index 0; warm members, deep-copied clusters processed the same way, members of aligned clusters and '
+        'signals derived by combine_at_angle used as rotation components and corrected in place.')
 ASSUMPTIONS = [
     'NaN-free real records; both components have the same length and dt',
     '|theta| <= 3600 degrees (the degree->radian rounding stays far below the 1e-12 relative allowance); a theta handed over '
@@ -67,72 +74,95 @@ ASSUMPTIONS = [
     'not from the property statement',
     'same_start is judged for windows 0 <= start <= end <= (n-1)*dt; the section average is whatever the public '
     'get_section_average(start, end) returns',
-    'compute_rotated with points < 2 and float32 offsets are not driven (the half circle needs two points)',
+    'compute_rotated with points = 1 returns the single angle -offset (numpy linspace convention); points < 1 and float32 '
+    'offsets are not driven',
+    'tolerances are local: rotation per sample (|ns_i|+|we_i|), the signed-sample measure at its own sample, section '
+    'averages relative to the largest magnitude inside the section window plus the applied shift, constancy of the shift '
+    'sample by sample; valid for amplitudes 1e-12..1e12 (squares stay far from the subnormal range) and |theta| <= 3600',
+    'a Cluster of one signal is judged for same_start only (time_match needs two signals: probed, counted, not judged)',
+    'the index convention of the section window (int(start/dt), int(end/dt)+1) is not judged here: same_start and the '
+    'read-back use the same public get_section_average, so only their agreement is decided',
     'a cluster handed over as float32 stays float32 inside eqsig; same_start is then judged with 1e-5 instead of 1e-12 '
     '(time_match and the rotation functions are judged as for float64: shifts are exact, rotation promotes to float64)',
 ]
 MIN_EVALS = {
     'quick': {
-        'cluster.caller-arrays-unchanged': 1100,
-        'cluster.first-result-intact-after-second-call': 320,
-        'cluster.twin-unaffected': 330,
-        'rotation.arguments-unchanged': 75000,
+        'cluster.caller-arrays-unchanged': 1200,
+        'cluster.deepcopy-twin-same-result': 240,
+        'cluster.first-result-intact-after-second-call': 360,
+        'cluster.member-memo==fresh': 690,
+        'cluster.members-own-their-data': 2400,
+        'cluster.members-rotated(monitored)': 390,
+        'cluster.twin-unaffected': 350,
+        'rotation.arguments-unchanged': 170000,
         'rotation.caller-arrays-unchanged': 750,
+        'rotation.component-objects-unchanged': 750,
+        'rotation.derived-memo==fresh': 330,
         'rotation.first-result-intact-after-second-call': 740,
         'rotation.quadrant-identities': 7400,
-        'rotation.result-is-AccSignal(dt,npts)': 72000,
+        'rotation.result-is-AccSignal(dt,npts)': 170000,
+        'rotation.result-owns-its-data': 170000,
         'rotation.theta+180-negates': 8900,
-        'rotation==ns*cos+we*sin': 70000,
+        'rotation==ns*cos+we*sin': 160000,
         'rotation==ns*cos+we*sin(float32-theta,single-precision-rtol)': 1700,
-        'same_start.master-unchanged': 1200,
-        'same_start.section-average==master': 3400,
-        'same_start.shift-is-constant': 3400,
-        'same_start.values-are-arrays': 1200,
-        'scan.angles==mod(linspace)': 3200,
-        'scan.half-circle-endpoints': 1400,
+        'same_start.master-unchanged': 1600,
+        'same_start.section-average==master': 4700,
+        'same_start.shift-is-constant': 4700,
+        'same_start.values-are-arrays': 1600,
+        'scan.angles==mod(linspace)': 6700,
+        'scan.half-circle-endpoints': 1500,
         'scan.offset+180-relation': 620,
-        'scan.values==measure(combination)': 3200,
-        'time_match.lag-removed(L<0)': 850,
-        'time_match.lag-removed(L=0)': 1400,
-        'time_match.lag-removed(L>0)': 850,
-        'time_match.lag-removed(|L|=steps-1)': 840,
-        'time_match.lag0-after-lagged-unchanged': 410,
-        'time_match.length-unchanged': 4500,
-        'time_match.master-unchanged': 1200,
-        'time_match.overlap==master': 2000,
-        'time_match.pad=edge-sample': 1700,
-        'time_match.values-are-arrays': 4500,
+        'scan.parameter-vs-callable-twin': 1500,
+        'scan.values==measure(combination)': 6700,
+        'time_match.lag-removed(L<0)': 1100,
+        'time_match.lag-removed(L=0)': 1800,
+        'time_match.lag-removed(L>0)': 1100,
+        'time_match.lag-removed(|L|=steps-1)': 1100,
+        'time_match.lag0-after-lagged-unchanged': 600,
+        'time_match.length-unchanged': 6000,
+        'time_match.master-unchanged': 1500,
+        'time_match.overlap==master': 2800,
+        'time_match.pad=edge-sample': 2200,
+        'time_match.values-are-arrays': 6000,
     },
     'thorough': {
-        'cluster.caller-arrays-unchanged': 20000,
-        'cluster.first-result-intact-after-second-call': 6000,
-        'cluster.twin-unaffected': 6000,
-        'rotation.arguments-unchanged': 1400000,
+        'cluster.caller-arrays-unchanged': 21000,
+        'cluster.deepcopy-twin-same-result': 4200,
+        'cluster.first-result-intact-after-second-call': 6400,
+        'cluster.member-memo==fresh': 12000,
+        'cluster.members-own-their-data': 43000,
+        'cluster.members-rotated(monitored)': 7300,
+        'cluster.twin-unaffected': 6500,
+        'rotation.arguments-unchanged': 3500000,
         'rotation.caller-arrays-unchanged': 15000,
+        'rotation.component-objects-unchanged': 15000,
+        'rotation.derived-memo==fresh': 6700,
         'rotation.first-result-intact-after-second-call': 14000,
-        'rotation.quadrant-identities': 140000,
-        'rotation.result-is-AccSignal(dt,npts)': 1300000,
-        'rotation.theta+180-negates': 170000,
-        'rotation==ns*cos+we*sin': 1300000,
+        'rotation.quadrant-identities': 150000,
+        'rotation.result-is-AccSignal(dt,npts)': 3400000,
+        'rotation.result-owns-its-data': 3400000,
+        'rotation.theta+180-negates': 180000,
+        'rotation==ns*cos+we*sin': 3300000,
         'rotation==ns*cos+we*sin(float32-theta,single-precision-rtol)': 35000,
-        'same_start.master-unchanged': 22000,
-        'same_start.section-average==master': 61000,
-        'same_start.shift-is-constant': 61000,
-        'same_start.values-are-arrays': 22000,
-        'scan.angles==mod(linspace)': 65000,
-        'scan.half-circle-endpoints': 29000,
+        'same_start.master-unchanged': 28000,
+        'same_start.section-average==master': 85000,
+        'same_start.shift-is-constant': 85000,
+        'same_start.values-are-arrays': 28000,
+        'scan.angles==mod(linspace)': 130000,
+        'scan.half-circle-endpoints': 31000,
         'scan.offset+180-relation': 12000,
-        'scan.values==measure(combination)': 65000,
-        'time_match.lag-removed(L<0)': 15000,
-        'time_match.lag-removed(L=0)': 27000,
-        'time_match.lag-removed(L>0)': 15000,
-        'time_match.lag-removed(|L|=steps-1)': 16000,
-        'time_match.lag0-after-lagged-unchanged': 7800,
-        'time_match.length-unchanged': 86000,
-        'time_match.master-unchanged': 23000,
-        'time_match.overlap==master': 38000,
-        'time_match.pad=edge-sample': 31000,
-        'time_match.values-are-arrays': 86000,
+        'scan.parameter-vs-callable-twin': 30000,
+        'scan.values==measure(combination)': 130000,
+        'time_match.lag-removed(L<0)': 20000,
+        'time_match.lag-removed(L=0)': 36000,
+        'time_match.lag-removed(L>0)': 20000,
+        'time_match.lag-removed(|L|=steps-1)': 21000,
+        'time_match.lag0-after-lagged-unchanged': 11000,
+        'time_match.length-unchanged': 110000,
+        'time_match.master-unchanged': 28000,
+        'time_match.overlap==master': 51000,
+        'time_match.pad=edge-sample': 41000,
+        'time_match.values-are-arrays': 110000,
     },
 }
 EXHAUSTIVE = {'quick': 'every (cluster size 2..4, master index, lag-sign pattern in {0,+,-}^(size-1)) = 141 patterns, each '
@@ -153,8 +183,10 @@ MEASURES = None       # key -> dict(parameter=|func=, parity, scale)
 SPECIAL_ANGLES = [0, 90, 180, 270, 360, 450, -90, -180]
 QUADRANT = {0: (1, 'ns'), 90: (1, 'we'), 180: (-1, 'ns'), 270: (-1, 'we'), 360: (1, 'ns'), 450: (1, 'we'),
             -90: (-1, 'we'), -180: (-1, 'ns')}
-OFFSET_KINDS = [0, 90, 180, 270, 30, -45, 'random']
-POINTS = [2, 5, 100, 3, 7]
+# 13 offset kinds, 16 measures, 15 point counts: pairwise coprime, so k -> (k % 13, k % 16, k % 15) walks the whole product
+OFFSET_KINDS = [0, 90, 180, 270, 30, -45, 'random', 1, 57.29577951308232, 540, -725, 3.141592653589793, 'random-large']
+POINTS = [2, 5, 100, 3, 7, 1, 31, 32, 33, 63, 64, 65, 127, 128, 256]
+POINTS2 = [5, 2, 3, 7, 1, 129, 33, 65]
 INT_FORMS = {'i64': 'int64', 'i32': 'int32', 'i16': 'int16', 'i8': 'int8', 'u8': 'uint8', 'u16': 'uint16'}
 
 
@@ -280,7 +312,7 @@ def build_measures(eqsig):
                                 scale=lambda A, dt: float(math.pi / (2 * G) * dt * np.sum(A * A))),
         'f:signed-max': dict(func=_m_signed_max, parity=None, scale=s_peak),
         'f:signed-min': dict(func=_m_signed_min, parity=None, scale=s_peak),
-        'f:signed-sample': dict(func=_m_sample, parity='odd', scale=s_peak),
+        'f:signed-sample': dict(func=_m_sample, parity='odd', scale=lambda A, dt: float(A[len(A) // 3])),   # local scale
         'f:cube-mean': dict(func=_m_cube_mean, parity='odd', scale=lambda A, dt: float(np.max(A)) ** 3),
         'f:cumsum-series-last': dict(func=_m_cumsum_series, parity='odd', scale=s_sum),
         'f:cumsum-list-last': dict(func=_m_cumsum_list, parity='odd', scale=s_sum),
@@ -386,6 +418,10 @@ def _post_combine(args, kwargs, result, pre):
               'combine_at_angle returned %s dt=%r npts=%r (components dt=%r npts=%d)'
               % (type(result).__name__, getattr(result, 'dt', None), getattr(result, 'npts', None), ns.dt, a.size))
     _check_purity(ctx, ns, we, pre, 'combine_at_angle')
+    owns = result is not ns and result is not we and isinstance(got, np.ndarray) and got.flags.writeable \
+        and not any(isinstance(x.values, np.ndarray) and np.shares_memory(got, x.values) for x in (ns, we))
+    ctx.check(owns, 'rotation.result-owns-its-data', lambda: _rot_witness(a, b, ns.dt, call='combine_at_angle', angle=th),
+              'combine_at_angle(theta=%r) returned one of its arguments / an object sharing memory with them' % (angle,))
 
 
 def _post_scan(args, kwargs, result, pre):
@@ -405,7 +441,7 @@ def _post_scan(args, kwargs, result, pre):
         ctx.observe('compute_rotated.out-of-domain-call')
         return
     dt = ns.dt
-    if (not isinstance(points, (int, np.integer))) or points < 2 or not math.isfinite(offf) or abs(offf) > 3600 \
+    if (not isinstance(points, (int, np.integer))) or points < 1 or not math.isfinite(offf) or abs(offf) > 3600 \
             or (isinstance(off, np.floating) and off.dtype.itemsize < 8) \
             or not (np.all(np.isfinite(a)) and np.all(np.isfinite(b))):
         ctx.observe('compute_rotated.out-of-domain-call')
@@ -556,7 +592,7 @@ def _post_same_start(args, kwargs, result, pre):
     dt = pre['dt']
     nsig = len(vals)
     try:
-        in_dom = nsig >= 2 and 0 <= start <= end and all(end <= (len(v) - 1) * dt and len(v) > 0 for v in vals) \
+        in_dom = nsig >= 1 and 0 <= start <= end and all(end <= (len(v) - 1) * dt and len(v) > 0 for v in vals) \
             and all(np.all(np.isfinite(v)) for v in vals)
     except Exception:
         in_dom = False
@@ -577,25 +613,27 @@ def _post_same_start(args, kwargs, result, pre):
         except Exception as e:
             ctx.exception('same_start.section-average==master', wit(), e)
             return
-    mmax = float(np.max(np.abs(vals[m])))
+    # LOCAL scale: the largest magnitudes inside (a one-sample superset of) the section window, plus the applied shift
+    wmax = []
+    for v in vals:
+        lo, hi = O.window_superset(len(v), dt, start, end)
+        wmax.append(float(np.max(np.abs(v[lo:hi]))))
     for i in range(nsig):
         if i == m:
             continue
-        bmax = float(np.max(np.abs(vals[i])))
-        scale = bmax + mmax
         rt_avg = RTOL_AVG_F32 if 'float32' in (pre['dtypes'][i], pre['dtypes'][m]) else RTOL_AVG
+        okc, shift, jw, dev, allowed = O.shift_deviation(vals[i].tolist(), aft[i].tolist(), rt_avg)
+        scale = wmax[i] + wmax[m] + abs(shift)
         okk = math.isfinite(avs[i]) and abs(avs[i] - avs[m]) <= rt_avg * scale
         ctx.check(okk, 'same_start.section-average==master',
                   lambda: wit(signal=i, average=avs[i], master_average=avs[m], allowed=rt_avg * scale),
                   'same_start(start=%r, end=%r), %d signals, master %d: section average of signal %d is %r, the master\'s '
                   'is %r (|diff| %.3g > %.3g)' % (start, end, nsig, m, i, avs[i], avs[m], abs(avs[i] - avs[m]),
                                                    rt_avg * scale))
-        defined, shift, spread = O.constant_shift(vals[i].tolist(), aft[i].tolist())
-        allowed = rt_avg * (bmax + abs(shift))
-        ctx.check(defined and spread <= allowed, 'same_start.shift-is-constant',
-                  lambda: wit(signal=i, shift=shift, spread=spread, allowed=allowed),
-                  'same_start changed signal %d by something other than a constant (spread of after-before %.3g > %.3g, '
-                  'length %d -> %d)' % (i, spread, allowed, len(vals[i]), len(aft[i])))
+        ctx.check(okc, 'same_start.shift-is-constant',
+                  lambda: wit(signal=i, shift=shift, sample=jw, deviation=dev, allowed=allowed),
+                  'same_start changed signal %d by something other than a constant (at sample %r after-before deviates from '
+                  'the shift %r by %.3g > %.3g; length %d -> %d)' % (i, jw, shift, dev, allowed, len(vals[i]), len(aft[i])))
 
 
 def install(ctx):
@@ -626,7 +664,49 @@ SENSITIVE = ['f:signed-max', 'f:cumsum-series-last', 'f:signed-sample', 'f:veloc
 
 
 def _wide_dt(rng):
-    return float(10.0 ** rng.uniform(-9, 3)) if rng.random() < 0.25 else gen.dt(rng)
+    r = rng.random()
+    if r < 0.25:
+        return float(10.0 ** rng.uniform(-9, 3))
+    if r < 0.4:       # steps for which dt/(dt/k) != k, int(t/dt) lands one off ...
+        return float(gen.awkward_dt(rng, int(rng.integers(2, 21))))
+    return gen.dt(rng)
+
+
+EXTRA_CLASSES = ['ramp+noise', 'pure-ramp', 'monotone', 'one-sided', 'tail-heavy', 'spike', 'nyquist+noise',
+                 'single-changed-sample']
+
+
+def extra_record(rng, n, cls=None):
+    """Record shapes the statement does not forbid: trend-dominated, monotone, one-sided, tail-heavy, one sample 1e3..1e12
+    times larger than the rest, energy at the Nyquist frequency, a single changed sample."""
+    if cls is None:
+        cls = EXTRA_CLASSES[int(rng.integers(len(EXTRA_CLASSES)))]
+    t = np.arange(n, dtype=float)
+    amp = float(10.0 ** rng.uniform(-12, 12)) if rng.random() < 0.3 else float(10.0 ** rng.uniform(-1, 1))
+    if cls == 'ramp+noise':
+        x = float(rng.choice([-1.0, 1.0])) * rng.uniform(0.5, 5) * t + rng.normal(size=n) * float(10.0 ** rng.uniform(-3, 0))
+    elif cls == 'pure-ramp':
+        x = (t + float(rng.integers(-5, 6))) * float(rng.choice([-2.0, 0.5, 3.0]))
+        amp = 1.0
+    elif cls == 'monotone':
+        x = np.cumsum(np.abs(rng.normal(size=n)) + 0.01)
+    elif cls == 'one-sided':
+        x = -np.abs(np.cumsum(rng.normal(size=n))) - rng.uniform(0.5, 3)
+    elif cls == 'tail-heavy':
+        x = np.zeros(n)
+        m = max(1, n // int(rng.integers(4, 11)))
+        x[-m:] = rng.normal(size=m)
+    elif cls == 'spike':
+        x = rng.normal(size=n) * float(10.0 ** rng.uniform(-3, 0))
+        x[int(rng.integers(n))] = float(rng.choice([-1.0, 1.0])) * float(10.0 ** rng.uniform(3, 12))
+        amp = 1.0
+    elif cls == 'nyquist+noise':
+        x = (-1.0) ** t * rng.uniform(1, 10) + rng.normal(size=n) * 0.1
+    else:
+        x = np.full(n, float(rng.choice([-2.0, 0.5, 3.0])))
+        x[int(rng.integers(n))] += float(rng.choice([-1.0, 0.25]))
+        amp = 1.0
+    return np.asarray(x, dtype=float) * amp, cls
 
 
 def draw_vector(rng, n, form, edge=None):
@@ -640,7 +720,10 @@ def draw_vector(rng, n, form, edge=None):
         cls = 'int-small'
     else:
         amp = float(10.0 ** rng.uniform(-12, 12)) if rng.random() < 0.35 else None
-        x, cls = gen.record(rng, n, amp=amp)
+        if rng.random() < 0.3:
+            x, cls = extra_record(rng, n)
+        else:
+            x, cls = gen.record(rng, n, amp=amp)
         if edge == 'first' and n > 1:
             x[0] = 3.0 * (np.max(np.abs(x)) or 1.0)
         elif edge == 'last' and n > 1:
@@ -658,10 +741,17 @@ def _angle_form(rng, th):
 
 
 def _make_scan(rng, okind, mkey, points, pair180, style):
-    off = float(rng.uniform(-400, 400)) if okind == 'random' else float(okind)
+    if okind == 'random':
+        off = float(rng.uniform(-400, 400))
+    elif okind == 'random-large':
+        off = float(rng.uniform(-3400, 3400))
+    else:
+        off = float(okind)
     off_form = 'float'
-    if okind != 'random':
-        off_form = ['float', 'int', 'np.float64', 'np.int64'][int(rng.integers(4))]
+    if okind not in ('random', 'random-large'):
+        off_form = ['float', 'np.float64'][int(rng.integers(2))]
+        if off == int(off):
+            off_form = ['float', 'int', 'np.float64', 'np.int64'][int(rng.integers(4))]
     if style == 'defaults':      # angle_off_ns and points left at their defaults (0.0, 100)
         off, off_form, points, okind = 0.0, 'float', 100, 0
     return {'offset': off, 'offset_kind': str(okind), 'offset_form': off_form, 'points': int(points), 'measure': mkey,
@@ -699,18 +789,22 @@ def make_rotation_case(rng, k):
     # scans: the (offset kind, measure, points) triple is enumerated by the case index
     mkeys = sorted(MEASURES)
     okind = OFFSET_KINDS[k % len(OFFSET_KINDS)]
-    mkey = mkeys[(k // len(OFFSET_KINDS)) % len(mkeys)]
-    points = POINTS[(k // (len(OFFSET_KINDS) * len(mkeys))) % len(POINTS)]
+    mkey = mkeys[k % len(mkeys)]
+    points = POINTS[k % len(POINTS)]
     style = ['kw', 'positional', 'kw', 'defaults' if n <= 64 and k % 12 == 7 else 'kw'][k % 4]
     if long_case:
         points, style = 2, 'kw'
-    if n > 64 and points == 100 and not long_case and rng.random() < 0.5:
-        ns, we = ns[:64], we[:64]
-        n = 64
+    ncap = 32 if points >= 63 else (64 if points >= 31 else n)      # keep points x samples bounded
+    if n > ncap and not long_case:
+        ns, we = ns[:ncap].copy(), we[:ncap].copy()
+        if same_object:
+            we = ns
+        n = ncap
     scans = [_make_scan(rng, okind, mkey, points, k % 2 == 0 and not long_case, style)]
     # a second, cheap scan with a sign-sensitive callable so that every case carries one
     okind2 = OFFSET_KINDS[(k // 3) % len(OFFSET_KINDS)]
-    scans.append(_make_scan(rng, okind2, SENSITIVE[(k // 5) % len(SENSITIVE)], 2 if long_case else [5, 2, 3, 7][(k // 21) % 4],
+    scans.append(_make_scan(rng, okind2, SENSITIVE[(k // 5) % len(SENSITIVE)],
+                            2 if long_case else (POINTS2[(k // 21) % len(POINTS2)] if n <= 64 else [5, 2, 3, 7, 1][(k // 21) % 5]),
                             k % 2 == 1 and not long_case, 'kw'))
     types = [['acc', 'acc'], ['sig', 'acc'], ['acc', 'sig'], ['sig', 'sig']][int(rng.integers(4))]
     case = {'kind': 'rotation', 'ns': ns, 'we': we, 'dt': dt, 'types': types, 'forms': forms, 'same_object': bool(same_object),
@@ -720,6 +814,13 @@ def make_rotation_case(rng, k):
         s_ns, _ = draw_vector(rng, n, 'f64')
         s_we, _ = draw_vector(rng, n, 'f64')
         case['second'] = {'ns': s_ns, 'we': s_we}
+    if not long_case and rng.random() < 0.45:
+        # objects derived by the library from warm objects, then used as components / corrected in place
+        d1 = float(SPECIAL_ANGLES[int(rng.integers(len(SPECIAL_ANGLES)))]) if rng.random() < 0.5 else float(np.round(rng.uniform(-360, 360), 2))
+        case['derived'] = {'theta1': d1, 'theta2': float(np.round(rng.uniform(-360, 360), 2)),
+                           'const': float(rng.normal()) * float(np.max(np.abs(ns)) or 1.0),
+                           'scan': _make_scan(rng, OFFSET_KINDS[int(rng.integers(len(OFFSET_KINDS)))],
+                                              SENSITIVE[int(rng.integers(len(SENSITIVE)))], int(rng.choice([1, 2, 3])), False, 'kw')}
     if not long_case and rng.random() < 0.5:
         n2 = [n, n, max(1, n // 2), n + int(rng.integers(1, 9))][int(rng.integers(4))]
         hf = [VEC_FORMS[int(rng.integers(len(VEC_FORMS)))] for _ in range(2)]
@@ -829,6 +930,70 @@ def _scan_and_relate(eqsig, ctx, case, ns_a, we_a, scn, tag):
     return d0, p0
 
 
+def _observables(sig):
+    """Public observables of a signal object, read on a deep copy (so that looking does not warm the object)."""
+    import copy
+    d = copy.deepcopy(sig)
+    out = {'type': type(d).__name__, 'values': np.array(d.values, copy=True), 'dt': d.dt, 'npts': d.npts, 'label': d.label,
+           'smooth_fa_freqs': np.array(d.smooth_fa_freqs, copy=True)}
+    if hasattr(d, 'response_times'):
+        out['response_times'] = np.array(d.response_times, copy=True)
+        if d.npts:
+            out['pga'] = float(d.pga)
+    return out
+
+
+def _same_observables(a, b):
+    if sorted(a) != sorted(b):
+        return False
+    for k in a:
+        if isinstance(a[k], np.ndarray):
+            if not unchanged(b[k], a[k]):
+                return False
+        elif a[k] != b[k]:
+            return False
+    return True
+
+
+def derived_objects(eqsig, ctx, case, d, ns_a, we_a):
+    """Objects derived by the library from warm objects are used as components; the returned object owns its data; whatever
+    memo it carries equals a fresh computation from its current values."""
+    import copy
+    if not d or ns_a.npts != we_a.npts:
+        return
+    for attr in ('pga', 'velocity', 'fa_spectrum'):
+        getattr(ns_a, attr)
+        getattr(we_a, attr)
+    r = eqsig.combine_at_angle(ns_a, we_a, d['theta1'])          # derived from warm components (monitored)
+    r.pga, r.pgv, r.velocity                                      # warm the derived object
+    eqsig.combine_at_angle(r, we_a, d['theta2'])                  # judged from r's current values
+    _scan_and_relate(eqsig, ctx, case, r, we_a, d['scan'], 'derived component')
+    snap = [np.array(ns_a.values, copy=True), np.array(we_a.values, copy=True)]
+    okk = isinstance(r.values, np.ndarray) and r.values.flags.writeable
+    if okk:
+        r.values[:] = r.values * 2.0 + 1.0                        # in-place correction of the RESULT ...
+    r.add_constant(d['const'])
+    okk = okk and unchanged(ns_a.values, snap[0]) and unchanged(we_a.values, snap[1])      # ... leaves the arguments alone
+    ctx.check(okk, 'rotation.result-owns-its-data',
+              lambda: dict(case, failing={'relation': 'in-place correction of the result leaves the arguments alone',
+                                          'theta': d['theta1']}),
+              'correcting the signal returned by combine_at_angle(theta=%r) in place changed one of its arguments' % d['theta1'])
+    with attach.paused():
+        fresh = eqsig.AccSignal(np.array(r.values, dtype=float), r.dt)
+        pairs = [(float(r.pga), float(fresh.pga)), (float(r.pgv), float(fresh.pgv)),
+                 (float(r.velocity[-1]), float(fresh.velocity[-1]))]
+    ctx.check(all(abs(x - y) <= 1e-12 * (abs(y) + abs(x)) for x, y in pairs), 'rotation.derived-memo==fresh',
+              lambda: dict(case, failing={'relation': 'memo of a derived, corrected object == fresh computation', 'pairs': pairs}),
+              'pga/pgv/final velocity memoised on a signal derived by combine_at_angle and then corrected: %r (memo, fresh)' % (pairs,))
+    eqsig.combine_at_angle(r, ns_a, d['theta2'])                  # the corrected derived object as a component again
+    dc = copy.deepcopy(ns_a)                                      # deepcopy + mutate
+    dc.add_constant(d['const'])
+    eqsig.combine_at_angle(dc, we_a, d['theta1'])
+    ctx.check(unchanged(ns_a.values, snap[0]), 'rotation.result-owns-its-data',
+              lambda: dict(case, failing={'relation': 'mutating a deep copy leaves the original alone'}),
+              'add_constant on a deep copy of a component changed the original')
+
+
 def self_history(eqsig, ctx, case, h, ns_a, we_a):
     """History on the same objects: cache reads, reset_values, more calls, add_constant."""
     if not h:
@@ -875,6 +1040,10 @@ def run_rotation_case(eqsig, ctx, case):
                 s.values.flags.writeable = False     # a function writing into its component would raise
         angles = case['angles']
         aforms = case.get('angle_forms', ['float'] * len(angles))
+        ns_a = eqsig.AccSignal(ns_in, dt)
+        we_a = ns_a if case.get('same_object') else eqsig.AccSignal(we_in, dt)
+        watched = [ns, we, ns_a, we_a]
+        obs_before = [_observables(x) for x in watched]
         first = None
         if angles:
             try:
@@ -884,13 +1053,35 @@ def run_rotation_case(eqsig, ctx, case):
                 ctx.exception('rotation==ns*cos+we*sin', dict(case, failing={'call': 'combine_at_angle', 'angle': angles[0]}), e)
         _combine_and_relate(eqsig, ctx, case, ns, we, angles, aforms, 'main')
         # scans (compute_rotated asserts AccSignal components)
-        ns_a = eqsig.AccSignal(ns_in, dt)
-        we_a = ns_a if case.get('same_object') else eqsig.AccSignal(we_in, dt)
         first_scan = None
         for j, scn in enumerate(case['scans']):
             r = _scan_and_relate(eqsig, ctx, case, ns_a, we_a, scn, 'main')
             if j == 0 and r is not None:
                 first_scan = (r[0], r[1], np.array(r[0], copy=True), np.array(r[1], copy=True))
+        # the parameter name and the callable that mean the same measure must agree (two sites, one definition)
+        try:
+            o2, p2 = case['scans'][1]['offset'], min(3, case['scans'][1]['points'])
+            for par, fkey in (('arias_intensity', 'f:calc_arias-series-last'), ('pgv', 'f:pgv-scalar')):
+                da, pa = eqsig.compute_rotated(ns_a, we_a, angle_off_ns=o2, parameter=par, points=p2)
+                db, pb = eqsig.compute_rotated(ns_a, we_a, angle_off_ns=o2, func=MEASURES[fkey]['func'], points=p2)
+                sc_t = MEASURES[fkey]['scale'](np.abs(ns_v) + np.abs(we_v if not case.get('same_object') else ns_v), dt)
+                ctx.check(tol.close(np.asarray(pa, dtype=float), np.asarray(pb, dtype=float), scale=sc_t, rtol=1e-12)
+                          and unchanged(da, np.asarray(db)), 'scan.parameter-vs-callable-twin',
+                          lambda: dict(case, failing={'relation': 'parameter=%r vs callable %s' % (par, fkey), 'offset': o2,
+                                                      'points': p2}),
+                          'compute_rotated(parameter=%r) and compute_rotated(func=%s) disagree: %r vs %r' % (par, fkey, pa, pb))
+        except Exception as e:
+            ctx.exception('scan.parameter-vs-callable-twin', dict(case, failing={'where': 'twin scans'}), e)
+        # every public observable of the component objects is as before (read on deep copies)
+        ctx.check(all(_same_observables(b, _observables(x)) for b, x in zip(obs_before, watched)),
+                  'rotation.component-objects-unchanged',
+                  lambda: dict(case, failing={'relation': 'public observables of the components unchanged'}),
+                  'a component signal handed to combine_at_angle / compute_rotated changed a public observable '
+                  '(values, dt, npts, label, smooth_fa_freqs, response_times, pga)')
+        try:
+            derived_objects(eqsig, ctx, case, case.get('derived'), ns_a, we_a)
+        except Exception as e:
+            ctx.exception('rotation.derived-op(no-exception)', dict(case, failing={'where': 'derived objects'}), e)
         # history on the same objects: cache reads, reset, more calls, in-place style mutator
         h = case.get('history')
         try:
@@ -996,7 +1187,7 @@ def _window(rng, n, dt):
         return {'start': x, 'end': x}                         # a single sample
     if r < 0.6 and T >= 1:
         return {'start': 0, 'end': int(rng.integers(1, int(T) + 1)), 'verbose': 0}   # integer times
-    if r < 0.7:                      # window given in whole samples
+    if r < 0.8:                      # window given in whole samples (awkward dt: i*dt/dt need not be i)
         i0 = int(rng.integers(0, n))
         i1 = int(rng.integers(i0, n))
         return {'start': i0 * dt, 'end': min(i1 * dt, T)}
@@ -1026,10 +1217,20 @@ def _draw_steps(rng):
     return int(rng.integers(3, 16)), False
 
 
-def make_cluster_case(rng, k):
-    nsig, master, signs = PATTERNS[k % len(PATTERNS)]
-    mode = MODES[(k // len(PATTERNS)) % len(MODES)]
-    long_case = k in CLU_LONG_CASES
+EXTRA_SIZES = [1, 5, 6, 8, 12, 1, 7, 16]
+
+
+def make_cluster_case(rng, k, extra=False):
+    if extra:       # clusters of one and of many signals, master anywhere (mostly not index 0)
+        nsig = EXTRA_SIZES[k % len(EXTRA_SIZES)]
+        master = 0 if nsig == 1 else (int(rng.integers(1, nsig)) if rng.random() < 0.85 else 0)
+        signs = tuple(int(x) for x in rng.choice([0, 1, -1], size=nsig - 1))
+        mode = 'samestart' if nsig == 1 else ['exact', 'samestart', 'workflow', 'levels', 'history', 'exact'][(k // len(EXTRA_SIZES)) % 6]
+        long_case = False
+    else:
+        nsig, master, signs = PATTERNS[k % len(PATTERNS)]
+        mode = MODES[(k // len(PATTERNS)) % len(MODES)]
+        long_case = k in CLU_LONG_CASES
     steps, default_steps = _draw_steps(rng)
     form = CLUSTER_FORMS[int(rng.integers(len(CLUSTER_FORMS)))]
     if long_case:
@@ -1057,7 +1258,10 @@ def make_cluster_case(rng, k):
     else:
         bcls = BASE_CLASSES[int(rng.integers(len(BASE_CLASSES)))] if rng.random() < 0.75 else None
         amp = float(10.0 ** rng.uniform(-12, 12)) if rng.random() < 0.3 else None
-        base, bcls = gen.record(rng, n + 2 * steps, cls=bcls, amp=amp, allow_const=False)
+        if rng.random() < 0.3:
+            base, bcls = extra_record(rng, n + 2 * steps)
+        else:
+            base, bcls = gen.record(rng, n + 2 * steps, cls=bcls, amp=amp, allow_const=False)
         e = rng.random()
         if e < 0.08:        # extreme at the master's first / last sample
             base[steps] = 3.0 * (np.max(np.abs(base)) or 1.0)
@@ -1151,6 +1355,12 @@ def make_cluster_case(rng, k):
             ops.append(['time_match', tm_kw])
         elif rng.random() < 0.3:
             ops.append(['same_start', _window(rng, n, dt)])
+    if mode in ('samestart', 'levels') and form not in CLUSTER_INT_FORMS and n >= 4 and rng.random() < 0.25:
+        # dynamic range inside one record: one sample 1e3..1e12 times larger than everything else
+        for i in range(nsig):
+            j = int(rng.integers(n))
+            values[i][j] += float(rng.choice([-1.0, 1.0])) * float(10.0 ** rng.uniform(3, 12)) * (float(np.max(np.abs(values[i]))) or 1.0)
+        bcls = str(bcls) + '+spike'
     if not can_tm:
         ops = [o for o in ops if o[0] != 'time_match']
     if form == 'f32':
@@ -1158,10 +1368,20 @@ def make_cluster_case(rng, k):
     st = rng.random()
     stypes = 'custom' if st < 0.35 else ('acc' if st < 0.7 else [str(rng.choice(['acc', 'custom'])) for _ in range(nsig)])
     names = None if rng.random() < 0.6 else ['rec%d' % i for i in range(nsig)]
+    if nsig == 1:       # time_match needs a second signal: probed, never judged
+        ops = [o for o in ops if o[0] != 'time_match'] + [['time_match?', tm_kw]]
     case = {'kind': 'cluster', 'values': values, 'dt': dt, 'master_index': master, 'stypes': stypes, 'names': names,
             'container': form, 'ops': ops, 'lags': [l if l is not None else 'unrelated' for l in lags],
             'steps': steps, 'mode': mode, 'base_class': bcls, 'steps_as_np_int': bool(rng.random() < 0.1),
-            'twin': bool(rng.random() < 0.3 and not long_case)}
+            'twin': bool(rng.random() < 0.3 and not long_case),
+            'warm': bool(rng.random() < 0.6), 'deepcopy_twin': bool(rng.random() < 0.2 and not long_case)}
+    if nsig >= 2 and not long_case and rng.random() < 0.35:
+        # members of the (aligned) cluster are then used as the two components of a rotation
+        case['rotate_members'] = {'other': int([i for i in range(nsig) if i != master][int(rng.integers(nsig - 1))]),
+                                  'theta': float(np.round(rng.uniform(-360, 360), 2)),
+                                  'scan': _make_scan(rng, OFFSET_KINDS[int(rng.integers(len(OFFSET_KINDS)))],
+                                                     SENSITIVE[int(rng.integers(len(SENSITIVE)))], int(rng.choice([1, 2, 3])),
+                                                     False, 'kw')}
     if not long_case and rng.random() < 0.3:
         # a second cluster of the same shape (negated lags on another base) for the process-wide-state relation
         b2, _ = gen.record(rng, n + 2 * steps, cls='noise')
@@ -1182,6 +1402,12 @@ def _run_ops(eqsig, ctx, case, c, ops, judged=True):
                 c.signal_by_index(int(op[1])).reset_values(np.array(op[2], dtype=float))
             elif name == 'sig.add_constant':
                 c.signal_by_index(int(op[1])).add_constant(op[2])
+            elif name == 'time_match?':
+                try:
+                    c.time_match(**dict(op[1]))
+                    ctx.observe('time_match.single-signal-cluster-returns')
+                except Exception:
+                    ctx.observe('time_match.single-signal-cluster-raises')
             else:
                 okw = dict(op[1])
                 if case.get('steps_as_np_int') and 'steps' in okw:
@@ -1216,8 +1442,61 @@ def run_cluster_case(eqsig, ctx, case):
             return
         if twin is not None:
             twin_snap = [np.array(twin.values_by_index(i), copy=True) for i in range(len(vals))]
+        members = [c.signal_by_index(i) for i in range(len(vals))]
+
+        def own():       # no member shares memory with the caller's container or with another member
+            arrs = [m_.values for m_ in members]
+            if not all(isinstance(a_, np.ndarray) for a_ in arrs):
+                return True          # judged by the values-are-arrays clauses
+            ext = [data] if isinstance(data, np.ndarray) else [x for x in data if isinstance(x, np.ndarray)]
+            return not any(np.shares_memory(a_, e_) for a_ in arrs for e_ in ext) and \
+                not any(np.shares_memory(arrs[i_], arrs[j_]) for i_ in range(len(arrs)) for j_ in range(i_))
+        ctx.check(own(), 'cluster.members-own-their-data', lambda: dict(case, failing={'relation': 'ownership after construction'}),
+                  'a Cluster member shares memory with the caller container / another member right after construction')
+        if case.get('warm'):       # warm the members: whatever memo they carry must follow their values
+            for m_ in members:
+                for attr in ('pga', 'pgv', 'velocity', 'fa_spectrum'):
+                    getattr(m_, attr, None)
+        dc = None
+        if case.get('deepcopy_twin'):
+            import copy
+            dc = copy.deepcopy(c)
         if not _run_ops(eqsig, ctx, case, c, case['ops']):
             return
+        ctx.check(own(), 'cluster.members-own-their-data', lambda: dict(case, failing={'relation': 'ownership after the operations'}),
+                  'a Cluster member shares memory with the caller container / another member after %s' % [o[0] for o in case['ops']])
+        if case.get('warm'):
+            bad = []
+            with attach.paused():
+                for i_, m_ in enumerate(members):
+                    if hasattr(m_, 'pga') and isinstance(m_.values, np.ndarray) and m_.npts > 0:
+                        fresh = eqsig.AccSignal(np.array(m_.values, copy=True), m_.dt)      # same dtype as the member
+                        for x, y in ((float(m_.pga), float(fresh.pga)), (float(m_.pgv), float(fresh.pgv)),
+                                     (float(m_.velocity[-1]), float(fresh.velocity[-1]))):
+                            if not abs(x - y) <= 1e-9 * (abs(x) + abs(y)):
+                                bad.append((i_, x, y))
+            ctx.check(not bad, 'cluster.member-memo==fresh',
+                      lambda: dict(case, failing={'relation': 'memo of warm members == fresh computation', 'bad': bad}),
+                      'pga/pgv/final velocity memoised on warm Cluster members differ from a fresh computation on their current '
+                      'values after %s: %r (signal, memo, fresh)' % ([o[0] for o in case['ops']], bad[:3]))
+        if dc is not None:
+            _run_ops(eqsig, ctx, case, dc, [o for o in case['ops'] if o[0] != 'time_match?'], judged=False)
+            same = all(unchanged(dc.values_by_index(i), np.asarray(c.values_by_index(i))) for i in range(len(vals)))
+            ctx.check(same, 'cluster.deepcopy-twin-same-result',
+                      lambda: dict(case, failing={'relation': 'deep copy processed the same way gives the same signals'}),
+                      'a deep copy of the cluster, taken before the operations and processed the same way afterwards, ends '
+                      'with different signals')
+        rm = case.get('rotate_members')
+        if rm is not None:
+            m0, m1 = members[int(case['master_index'])], members[int(rm['other'])]
+            if m0.npts == m1.npts and isinstance(m0.values, np.ndarray) and isinstance(m1.values, np.ndarray):
+                try:
+                    eqsig.combine_at_angle(m0, m1, rm['theta'])
+                    if isinstance(m0, eqsig.AccSignal) and isinstance(m1, eqsig.AccSignal):
+                        _scan_call(eqsig, m0, m1, rm['scan'], rm['scan']['offset'])
+                    ctx.ok('cluster.members-rotated(monitored)')
+                except Exception as e:
+                    ctx.exception('cluster.members-rotated(monitored)', dict(case, failing={'where': 'rotation of members'}), e)
         ctx.check(container_unchanged(data, snap), 'cluster.caller-arrays-unchanged',
                   lambda: dict(case, failing={'relation': 'caller container unchanged'}),
                   'the %s container handed to Cluster() was modified by %s' % (case.get('container'), [o[0] for o in case['ops']]))
@@ -1251,8 +1530,9 @@ def run_shard(ctx):
     rng = ctx.rng
     n_rot = 1500 if ctx.tier == 'quick' else 30000
     n_clu = 16 * len(PATTERNS) if ctx.tier == 'quick' else 284 * len(PATTERNS)
-    for k in core.split_range(n_clu, ctx.shard, ctx.nshards):
-        case = make_cluster_case(rng, k)
+    n_extra = 192 if ctx.tier == 'quick' else 3200
+    for k in list(core.split_range(n_clu, ctx.shard, ctx.nshards)) + [-1 - j for j in core.split_range(n_extra, ctx.shard, ctx.nshards)]:
+        case = make_cluster_case(rng, k, extra=False) if k >= 0 else make_cluster_case(rng, -1 - k, extra=True)
         nontriv = any(l not in (0,) for i, l in enumerate(case['lags']) if i != case['master_index']) \
             or case['mode'] in ('samestart', 'workflow', 'levels', 'history')
         ctx.case(core.digest(case['values'], case['dt'], case['master_index'], repr(case['stypes']), case['container'],
@@ -1265,6 +1545,7 @@ def run_shard(ctx):
                          'ops': [[x if not isinstance(x, np.ndarray) else 'array(%d)' % len(x) for x in o] for o in case['ops']],
                          'base_class': case['base_class']})
         ctx.observe('cluster.container.%s' % case['container'])
+        ctx.observe('cluster.size.%d' % len(case['values']))
         ctx.observe('cluster.steps.%d' % case['steps'])
         run_cluster_case(eqsig, ctx, case)
         if ctx.out_of_time():
